@@ -29,6 +29,41 @@ def known_functions():
     return _known
 
 
+_arity = None
+
+
+def known_arities():
+    """{"uq/number of parameters"} of the functions the witness units saw when the rules were written."""
+    global _arity
+    if _arity is None:
+        p = os.path.join(os.path.dirname(os.path.abspath(__file__)), "known_arities.json")
+        _arity = set(json.load(open(p)))
+    return _arity
+
+
+def anchor_index(raw_functions):
+    """uq -> True when the unit holds an overload of that name whose arity is a known one."""
+    ka = known_arities()
+    out = {}
+    for f in raw_functions:
+        if "%s/%d" % (f.get("uq"), len(f.get("params", []))) in ka:
+            out[f.get("uq")] = True
+    return out
+
+
+def is_new_helper(f, idx):
+    """f (a raw function) is NOT one of the anchors the rules bind to: either its qualified name is new, or it is an
+    additional overload (a different number of parameters) standing beside a known overload of the same name -- the
+    usual shape of `void helper(a) { helper(a, default); }` delegation.  A known function that merely gained a
+    parameter (no known-arity sibling left) stays an anchor."""
+    uq = f.get("uq")
+    if uq not in known_functions():
+        return True
+    if "%s/%d" % (uq, len(f.get("params", []))) in known_arities():
+        return False
+    return bool(idx.get(uq))
+
+
 def _remap_node(d, noff, dmap):
     n = copy.deepcopy(d)
     n["i"] = d["i"] + noff
@@ -69,12 +104,12 @@ def inlinable_calls(unit, fn, fd, force=None):
             cal = n.get("callee")
             if not cal or cal.get("kind") not in ("method", "func", "op"):
                 continue
+            tgt = unit.raw_by_did.get(cal["did"])
             if force is not None:
                 if not force(cal):
                     continue
-            elif cal["uq"] in kn:
+            elif tgt is None or not is_new_helper(tgt, unit.anchor_idx):
                 continue
-            tgt = unit.raw_by_did.get(cal["did"])
             if tgt is None or not tgt.get("blocks") or tgt["did"] == fd["did"] or not tgt.get("cfgok", True):
                 continue
             skip = 0
@@ -230,6 +265,7 @@ def inline_unit(unit_json):
     u = U()
     u.raw_by_did = {f["did"]: f for f in unit_json["functions"]}
     originals = {did: copy.deepcopy(f) for did, f in u.raw_by_did.items()}
+    u.anchor_idx = anchor_index(unit_json["functions"])
     u.raw_by_did = originals        # always splice pristine callee bodies (nested helpers are inlined on the next pass)
     inlined_into = set()
     instance = 0
@@ -249,7 +285,7 @@ def inline_unit(unit_json):
     drop = set()
     for did in inlined_into:
         f = originals[did]
-        if f["uq"] not in kn and (f.get("access") in ("private", "protected") or f.get("lambda") or f.get("kind") == "func"):
+        if is_new_helper(f, u.anchor_idx) and (f.get("access") in ("private", "protected") or f.get("lambda") or f.get("kind") == "func"):
             drop.add(did)
     return drop
 
@@ -264,6 +300,7 @@ def inline_variant(unit, fn, select, rounds=24):
         pass
     u = U()
     u.raw_by_did = {f.d["did"]: f.d for f in unit.functions}
+    u.anchor_idx = anchor_index(u.raw_by_did.values())
     fd = copy.deepcopy(fn.d)
     instance = 500
     for _round in range(rounds):
